@@ -38,7 +38,8 @@ Plain data throughout, no classes of the code under test:
   exception      {"period": period, "tv": [(time, value), ...], "prio": 1..16}
   schedule       {"period": (pattern, pattern), "weekly": None | [7 x [(time, value), ...]] (Monday first),
                   "exceptions": [exception, ...], "default": value}
-  value          None stands for NULL, anything else is compared with ==
+  value          None stands for NULL, anything else is compared with == (the harness uses integers: either the value
+                 itself or the number of a value in the palette of the datatype under test, 0 = the type's zero / empty value)
 """
 import calendar
 import datetime
@@ -198,6 +199,21 @@ def present_value(sched, d, t):
         if v is not None:
             return (True, v)
     return (True, sched["default"])
+
+
+def present_source(sched, d, t):
+    """Where the prescribed value comes from: ("exception", rank among those in effect (1 = highest priority), entry time),
+    ("weekly", entry time) or ("default",); None when the schedule is not active."""
+    if not active(sched, d):
+        return None
+    inforce = sorted((e for e in sched.get("exceptions") or [] if period_matches(e["period"], d)), key=lambda e: e["prio"])
+    for rank, e in enumerate(inforce):
+        if list_value(e["tv"], t) is not None:
+            return ("exception", rank + 1, max(tuple(tt) for (tt, v) in e["tv"] if tuple(tt) <= tuple(t)))
+    weekly = sched.get("weekly")
+    if weekly and list_value(weekly[d.weekday()], t) is not None:
+        return ("weekly", max(tuple(tt) for (tt, v) in weekly[d.weekday()] if tuple(tt) <= tuple(t)))
+    return ("default",)
 
 
 def all_times(sched):
